@@ -776,7 +776,7 @@ def families():
     # measured: tractable (8-140 s) are the count bytes, the OPT/option length bytes and the data
     # length of the last record; a symbolic label length, pointer byte or type byte of an early
     # record does not finish in 20 min (every later offset becomes symbolic) and is not generated.
-    SYMB_OK = {'q_opt2': (7, 11, 37, 41), 'r_a_aaaa': (7, 11, 57), 'r_cname_chain': (7, 11, 57), 'r_mx_soa': (7, 11), 'r_optmid': (7, 11)}
+    SYMB_OK = {'q_opt2': (7, 11, 37, 41), 'r_a_aaaa': (7, 11, 57), 'r_cname_chain': (7, 11, 57), 'r_mx_soa': (11,), 'r_optmid': (11,)}
     for skn in ('q_opt2', 'r_a_aaaa', 'r_cname_chain', 'r_mx_soa', 'r_optmid'):
         pk = byname[skn]
         for k, (pos, what) in enumerate(symbytes(pk)):
@@ -848,7 +848,7 @@ def families():
         for m, mn in ((0, 'fn'), (1, 'obj')):
             t = c['tier'] if m == 0 else 'thorough'
             fam.append(dict(name="rn_%s_%s" % (mn, c['name']), body="p_rename::rename::<_, rn_gen::%s, %d>" % (c['type'], m),
-                            props=["C07"] if m == 0 else ["C07", "C08"], tier=t, est=200, timeout=1500 if (t != 'thorough' and 'name255' not in c['name']) else 3000, mem_gb=40,
+                            props=["C07"] if m == 0 else ["C07", "C08"], tier=t, est=200, timeout=(600 if m == 1 else (1500 if 'name255' not in c['name'] else 3000)), mem_gb=40,
                             bound="%s: %s | source %s target %s %s | skeleton %s (%d bytes): %s; label characters concrete, all other payload symbolic" % (
                                 "Renamer::rename_with_raw_names" if m == 0 else "ParsedPacket::rename_with_raw_names (+ object view vs fresh parse)",
                                 c['what'], c['source'].hex(), c['target'].hex(), "suffix mode" if c['suffix'] else "exact mode", pk.name, len(pk.cells), pk.desc),
